@@ -1,2 +1,2 @@
-import Hive.Model.SeqConc
-def main : IO Unit := Hive.Proto.run (Hive.Seq.init, Hive.Seq.init) Hive.Seq.Conc.stepLine2
+import Hive.Model.SeqMulti
+def main : IO Unit := Hive.Proto.run Hive.Seq.Multi.minit Hive.Seq.Multi.stepLineM
